@@ -150,6 +150,9 @@ fn dictionary_case(i: u64, out: &mut CaseOut) {
     let replay = json!({"stratum": "dictionary", "index": i});
     let chain = ChainRef::new();
     let kind = if i % 2 == 1 { StoreKind::Sqlite } else { StoreKind::Mem };
+    // other time-valued properties must not influence expiry: none / all long past / all recent
+    let extras = (i / 4) % 3;
+    let i = i % 4;
     let mut r = new_replica(0, kind, &chain);
     let dict = modified_dictionary(now());
     let mut abs = vec![];
@@ -166,6 +169,12 @@ fn dictionary_case(i: u64, out: &mut CaseOut) {
             if let Some(m) = m {
                 abs.push(AbsOp::Set(u, "modified".into(), m.clone(), ts(1)));
             }
+            if extras > 0 {
+                let v = if extras == 1 { now() - 400 * DAY } else { now() - 60 };
+                for k in ["end", "entry", "due", "wait", "start", "scheduled"] {
+                    abs.push(AbsOp::Set(u, k.into(), v.to_string(), ts(1)));
+                }
+            }
             combos.push((st.map(|s| s.to_string()), m.clone()));
         }
     }
@@ -180,7 +189,7 @@ fn dictionary_case(i: u64, out: &mut CaseOut) {
     }
     let Some(purged) = check_expire(&mut r, out, &replay) else { return };
     out.count("dictionary_combinations", combos.len() as u64);
-    out.nontrivial = Some(i + 1);
+    out.nontrivial = Some(i + 1 + 4 * extras);
     out.sample = Some(json!({"combinations": combos.len(), "purged": purged.len(), "examples": combos.iter().step_by(37).take(5).collect::<Vec<_>>()}));
 }
 
@@ -382,7 +391,7 @@ pub fn run(ctx: &Ctx) -> Outcome {
     let want = |s: &str| only.as_deref().map(|o| o == s).unwrap_or(true);
     let range = |n: u64| -> (u64, u64) { match only_idx { Some(i) => (i, i + 1), None => (0, n) } };
     if want("dictionary") {
-        let (lo, hi) = range(4);
+        let (lo, hi) = range(12);
         run_cases(&mut acc, "dictionary", hi - lo, |i| {
             let mut out = CaseOut::new();
             dictionary_case(i + lo, &mut out);
